@@ -140,6 +140,111 @@ theorem fragment_claim_needs_charwise :
   · decide
   · decide
 
+/-! ## case folding that is not one code point to one code point
+
+`casefold` maps `ß` to `ss`, `lower` maps `İ` to `i̇`.  `filter_names` matches the *folded*
+strings, `Completion._complete` cuts the *unfolded* name at the length of the *unfolded*
+fragment.  The two agree exactly as far as no code point involved folds to several. -/
+
+/-- the folding statements of `filter_names` as the translator read them -/
+def srcShape : FoldShape :=
+  ⟨Gen.C04.foldLikeMethod, Gen.C04.foldNameMethod, Gen.C04.lengthBeforeFold⟩
+
+/-- The source folds fragment and candidates with `str.lower` — the only one of CPython's case
+mappings that maps every code point except U+0130 to one code point (`casefold` and `upper`
+expand `ß`, `ŉ`, `ǰ`, ligatures …) — and measures the fragment before folding.  Editing either
+statement of `filter_names` changes `Gen.C04.fold*` and this theorem stops type-checking. -/
+theorem source_fold_shape : srcShape = ⟨"lower", "lower", true⟩ := by decide
+
+/-- with that shape `filter_names` is the function all theorems above speak about -/
+theorem source_filter_is_filterNames (st : Settings) (F : Folds) (cands : List Cand)
+    (like : List Char) (fuzzy : Bool) (imported : List (List Char)) :
+    filterNamesSrc srcShape st F cands like fuzzy imported =
+      filterNames st F.lower cands like fuzzy imported := by
+  rw [source_fold_shape]
+  rfl
+
+/-- whatever the folding methods are, the reported prefix length is the fragment length as long
+as the length is taken before folding -/
+theorem prefix_length_is_fragment_length_src (sh : FoldShape) (hsh : sh.lengthFirst = true)
+    (st : Settings) (F : Folds) (cands : List Cand) (like : List Char) (fuzzy : Bool)
+    (imported : List (List Char)) (c : Comp)
+    (h : c ∈ filterNamesSrc sh st F cands like fuzzy imported) :
+    c.prefixLength = like.length := by
+  have y := filterLoop_yielded _ _ _ _ _ _ _ _ _ h
+  rw [y.eq]; simp [mkComp, Comp.prefixLength, hsh]
+
+/-- Non-fuzzy, case-insensitive, for ANY code-point-wise case mapping `f` (one code point may
+fold to several): if no code point of the fragment and none of the first `|fragment|` code
+points of the offered name folds to several, the first `prefix_length` characters of the name
+are the fragment up to case.  Both hypotheses are forced (witnesses below). -/
+theorem prefix_is_fragment_unit_partial (st : Settings) (f : Char → List Char)
+    (cands : List Cand) (like : List Char) (imported : List (List Char)) (c : Comp)
+    (hci : st.caseInsens = true)
+    (h : c ∈ filterNames st (expand f) cands like false imported)
+    (hpub : c.cand.str <+: c.cand.pub)
+    (hl : unitOn f like = true) (hn : unitOn f (c.name.take like.length) = true) :
+    c.prefixLength = like.length ∧
+      expand f (c.name.take c.prefixLength) = expand f like := by
+  have y := filterLoop_yielded _ _ _ _ _ _ _ _ _ h
+  have hm := y.isMatch
+  simp only [foldCase, hci, if_true, pmatch, Bool.false_eq_true, if_false,
+    startMatch_iff_prefix] at hm
+  have hlen : c.prefixLength = like.length := by rw [y.eq]; rfl
+  obtain ⟨suffix, hs⟩ := hpub
+  have hk : like.length ≤ c.cand.str.length :=
+    length_le_of_expand_prefix f like c.cand.str suffix hm hl (by simpa [Comp.name, hs] using hn)
+  have ht : c.name.take like.length = c.cand.str.take like.length := by
+    simp only [Comp.name, ← hs, List.take_append_of_le_length hk]
+  refine ⟨hlen, ?_⟩
+  rw [hlen, ht]
+  exact expand_take_eq f like c.cand.str hm hl (by rw [← ht]; exact hn) hk
+
+/-- ... and then the text the editor ends up with, fragment + `complete`, spells
+`name_with_symbols` up to case -/
+theorem accepted_text_spells_name_partial (st : Settings) (f : Char → List Char)
+    (cands : List Cand) (like : List Char) (imported : List (List Char)) (c : Comp)
+    (hci : st.caseInsens = true)
+    (h : c ∈ filterNames st (expand f) cands like false imported)
+    (hpub : c.cand.str <+: c.cand.pub)
+    (hl : unitOn f like = true) (hn : unitOn f (c.name.take like.length) = true)
+    (suf : List Char) (hs : c.complete st = some suf) :
+    expand f (like ++ suf) = expand f (c.nameWithSymbols st) := by
+  have hp := prefix_is_fragment_unit_partial st f cands like imported c hci h hpub hl hn
+  rw [complete_is_missing_suffix st c suf hs, expand_append, expand_append, hp.2]
+
+/-- `casefold` on the one code point that matters here -/
+def foldSharpS (ch : Char) : List Char := if ch = 'ß' then ['s', 's'] else [ch]
+
+/-- Witness that the hypothesis on the FRAGMENT is needed: behind `straß` the name `strasse` is
+offered (its first five characters `stras` contain no expanding code point), and `stras` is not
+`straß` up to case: accepting it leaves `straßse`. -/
+theorem fragment_claim_needs_unit_fragment :
+    ∃ c ∈ filterNames ⟨true, false⟩ (expand foldSharpS)
+        [⟨"strasse".toList, "strasse".toList, false, false⟩] "straß".toList false [],
+      unitOn foldSharpS (c.name.take 5) = true ∧
+      expand foldSharpS (c.name.take c.prefixLength) ≠ expand foldSharpS "straß".toList ∧
+      c.complete ⟨true, false⟩ = some "se".toList := by
+  refine ⟨mkComp 5 false ⟨"strasse".toList, "strasse".toList, false, false⟩, ?_, ?_, ?_, ?_⟩ <;> decide
+
+/-- Witness that the hypothesis on the NAME is needed: behind `stras` (no expanding code point)
+the name `straße` is offered with `complete = 'e'`: accepting it leaves `strase`. -/
+theorem fragment_claim_needs_unit_name :
+    ∃ c ∈ filterNames ⟨true, false⟩ (expand foldSharpS)
+        [⟨"straße".toList, "straße".toList, false, false⟩] "stras".toList false [],
+      unitOn foldSharpS "stras".toList = true ∧
+      expand foldSharpS (c.name.take c.prefixLength) ≠ expand foldSharpS "stras".toList ∧
+      c.complete ⟨true, false⟩ = some "e".toList := by
+  refine ⟨mkComp 5 false ⟨"straße".toList, "straße".toList, false, false⟩, ?_, ?_, ?_, ?_⟩ <;> decide
+
+/-- non-vacuity of `prefix_is_fragment_unit_partial`: behind `Stra` both spellings are offered and
+both satisfy the hypotheses -/
+example : ∀ c ∈ filterNames ⟨true, false⟩ (expand fun ch => foldSharpS ch.toLower)
+    [⟨"straße".toList, "straße".toList, false, false⟩, ⟨"strasse".toList, "strasse=".toList, false, false⟩]
+    "Stra".toList false [],
+    unitOn (fun ch => foldSharpS ch.toLower) (c.name.take 4) = true ∧ c.cand.str <+: c.cand.pub := by
+  decide
+
 /-! ## no duplicates -/
 
 /-- no `(name, complete)` pair occurs twice in `filter_names`' output -/
